@@ -65,6 +65,25 @@ CHECKS.update({
    note=FN_NOTE, technique="TLA+ model checking (TLC) + trace validation of real IpGenerator histories"),
 })
 
+NET_NOTE = FN_NOTE + " Full-stack runs use the real machines, protocols and networks on a paused current_thread tokio clock (virtual time); the frame hook of feature verif observes / drops frames."
+CHECKS.update({
+ "C04": dict(level="model_checking", ref="DESIGN.md 7 C04",
+   text="Demux.tla: Udp::listen / Ipv4::listen and the two-stage demultiplexing of the code, checked by TLC against the endpoint rule (exact binding, else wildcard, never another "
+        "port or specific address, second bind refused) for every bind history; real machines (Udp, Ipv4, optional Arp, Pci, three harness applications) exchanging datagrams, every "
+        "bind result, every demux (application, payload, source and destination endpoint from Control) and end-of-run completeness validated by TraceDemux.tla.",
+   note=NET_NOTE, technique="TLA+ model checking (TLC) + trace validation of real full-stack UDP executions"),
+ "C05": dict(level="model_checking", ref="DESIGN.md 7 C05",
+   text="Link.tla: PciSession::send_pci and the steps of Network::send (permit, transmission time, latency, fan-out) with explicit time, all interleavings of concurrent sends "
+        "(unicast/broadcast/unknown, MTU rule, no transmission overlap, not early, nothing lost); real Networks and taps (1-2 networks, several taps per machine, MTU boundary, "
+        "constant/variable latency and throughput) under virtual time validated clause by clause by TraceLink.tla.",
+   note=NET_NOTE, technique="TLA+ model checking (TLC) with explicit time + trace validation of real link executions"),
+ "C06": dict(level="model_checking", ref="DESIGN.md 7 C06",
+   text="Arp.tla: resolve() with gateway substitution, cache, learning from sender fields, the bounded retry loop and frame loss, all interleavings of up to 3 concurrent "
+        "resolutions (correct owner, agreement, success when an exchange survives, failure for unclaimed addresses, no hang); real Arp instances with a seeded loss plan executed by "
+        "the frame hook, every resolution validated by TraceArp.tla against the recorded claims and ARP frames.",
+   note=NET_NOTE, technique="TLA+ model checking (TLC) + trace validation of real ARP executions with injected frame loss"),
+})
+
 NOT_APPLICABLE = {}
 PENDING = ["C02", "C04", "C05", "C06", "C07", "C08", "C09", "C10", "C11", "C13", "C14", "C15", "C16", "C18", "C19", "C20"]
 
